@@ -70,6 +70,7 @@ type cRig struct {
 	lost, discBeforeLoss bool // a fault / close command was issued; "disc" came before it
 	cb2       int32 // a second callback registered with every "disc": every registered callback fires exactly once
 	subCancel func()
+	big       bool // replies carry a large payload (a reader may change its strategy with the size)
 	paused    bool
 	kick      chan struct{}
 	holdCh    chan struct{} // armed: the stream's Close blocks at its entry until the channel is closed
@@ -84,10 +85,13 @@ const (
 
 func newCRig(name string) *cRig {
 	r := &cRig{st: hlib.NewMemStream(name), calls: map[int]*callState{}}
-	if atomic.AddInt32(&rigSeq, 1)%2 == 0 {
+	seq := atomic.AddInt32(&rigSeq, 1)
+	if seq%2 == 0 {
 		// every other rig: the transport reports a failure when closed (and is closed all the same)
 		r.st.CloseErr = errCloseReports
 	}
+	// every third rig: replies of 70 001 bytes; "half" cuts them in the middle of the payload
+	r.big = seq%3 == 0
 	r.st.Gate = func(p []byte) {
 		var m net.Message
 		if err := m.Read(bytes.NewReader(p)); err != nil || m.Header.Type != net.Call {
@@ -176,12 +180,40 @@ func sameObs(a, b cObs) bool {
 	return true
 }
 
-func replyFrame(c *callState, typ uint8) []byte {
+// replyPayload: the result of call k
+func replyPayload(k int, big bool) []byte {
+	p := []byte{byte(k), 0xEE, 0xFF}
+	if big {
+		p = append(p, make([]byte, 70001-3)...)
+		for i := 3; i < len(p); i += 251 {
+			p[i] = byte(i + k)
+		}
+	}
+	return p
+}
+
+// the reply as the documented bytes (assembled here, not by Message.Write: the peer is not the code under test)
+func replyFrame(c *callState, typ uint8, big bool) []byte {
 	hdr := net.NewHeader(typ, cService, cObject, uint32(100+c.k), c.reqID)
 	m := net.NewMessage(hdr, []byte{byte(c.k), 0xEE, 0xFF})
 	var b bytes.Buffer
 	m.Write(&b)
-	return b.Bytes()
+	if !big {
+		return b.Bytes()
+	}
+	f := append([]byte{}, b.Bytes()[:28]...)
+	pl := replyPayload(c.k, true)
+	n := uint32(len(pl))
+	f[8], f[9], f[10], f[11] = byte(n), byte(n>>8), byte(n>>16), byte(n>>24)
+	return append(f, pl...)
+}
+
+// halfCut: where "half" cuts a reply
+func halfCut(big bool) int {
+	if big {
+		return 28 + 35000
+	}
+	return 29
 }
 
 func cmdClient(args []string) {
@@ -286,10 +318,10 @@ func clientOne(res *hlib.Result, r *cRig, trk *tracker, rec *hlib.Recorder, ops 
 			c := r.calls[o.A]
 			close(c.release)
 		case "reply":
-			r.st.Feed(replyFrame(r.calls[o.A], net.Reply))
+			r.st.Feed(replyFrame(r.calls[o.A], net.Reply, r.big))
 		case "half":
-			f := replyFrame(r.calls[o.A], net.Reply)
-			r.st.Feed(f[:29])
+			f := replyFrame(r.calls[o.A], net.Reply, r.big)
+			r.st.Feed(f[:halfCut(r.big)])
 		case "rest":
 			// the second piece of the only half-fed reply
 			r.st.Feed(r.halfRest(ops[:i]))
@@ -438,8 +470,8 @@ func clientOne(res *hlib.Result, r *cRig, trk *tracker, rec *hlib.Recorder, ops 
 		if sameObs(got, exp) {
 			// a successful call returns its own reply
 			for k := 1; k <= ncalls; k++ {
-				if got.C[k-1] == 2 && !bytes.Equal(r.calls[k].value, []byte{byte(k), 0xEE, 0xFF}) {
-					res.Fail("client/wrong-result", fmt.Sprintf("call %d returned % x", k, r.calls[k].value), cse)
+				if got.C[k-1] == 2 && !bytes.Equal(r.calls[k].value, replyPayload(k, r.big)) {
+					res.Fail("client/wrong-result", fmt.Sprintf("call %d returned %d bytes which are not its own reply (large replies: %v)", k, len(r.calls[k].value), r.big), cse)
 					return 2
 				}
 			}
@@ -529,8 +561,8 @@ func isDone(c *callState) bool {
 func (r *cRig) halfRest(before []cOp) []byte {
 	for i := len(before) - 1; i >= 0; i-- {
 		if before[i].O == "half" {
-			f := replyFrame(r.calls[before[i].A], net.Reply)
-			return f[29:]
+			f := replyFrame(r.calls[before[i].A], net.Reply, r.big)
+			return f[halfCut(r.big):]
 		}
 	}
 	return nil
